@@ -36,6 +36,10 @@ def kind_spec(kind, p):
         return ("list", [("leaf", p + "i")]), [(p + "i", "int")]
     if kind == "dict":
         return ("dict", {"k": ("leaf", p + "s")}), [(p + "s", "str")]
+    if kind == "zero":
+        return ("const", 0), []
+    if kind == "false":
+        return ("const", False), []
     if kind == "elist":
         return ("const", []), []
     if kind == "edict":
@@ -64,6 +68,9 @@ def member_spec(member, kind, p):
             return ("dict", {"a": ("leaf", p + "i")}), [(p + "i", "int")]
         if kind == "kwx":
             return ("dict", {"x": ("leaf", p + "i")}), [(p + "i", "int")]
+        if kind == "bean":
+            return (("list", [("dict", {"__jsonclass__": ("const", ["harness.jclasses.Plain", []]), "a": ("leaf", p + "i")})]),
+                    [(p + "i", "int")])
         if kind == "nested":
             return (
                 ("list", [("list", [("leaf", p + "i"), ("const", [])]), ("dict", {"k": ("leaf", p + "s"), "e": ("const", {})})]),
